@@ -2,8 +2,8 @@
   Model.YEnc — the JSON / RFC 7951 writer and reader at the level of JSON values, and the XML writer and
   reader at the level of XML elements.
 
-  Mirrors data/encoding/json.go: JSONWriter.encodeJsonChildren / writeJsonName (module-name stack: a name
-  carries "module:" where the module differs from the parent's) / writeValue (empty → [null] or null,
+  Mirrors data/encoding/json.go: JSONWriter.encodeJsonChildren / PushName / writeJsonName (module-name stack:
+  a name carries "module:" where the module differs from the parent's — several modules, augments) / writeValue (empty → [null] or null,
   boolean and numbers bare — 64-bit numbers as strings in RFC 7951 — everything else a string),
   JSONReader.name / values / unserializedChildren / decodeValue (after the repair a number is its literal);
   data/encoding/xml.go: encodeXmlChildren (a list contributes its entries, a leaf-list one element per
@@ -57,36 +57,43 @@ def values : J → Option (List Bytes)
 
 variable {τ : Type}
 
-/-- the name as written: "module:name" at the top and wherever the module changes (all nodes of this model
-    live in one module: only the children of the root are qualified) -/
-def jname (rfc top : Bool) (modName : Tok) (n : Tok) : Tok := if rfc && top then modName ++ [58] ++ n else n
+/-- the name as written (`PushName` / `CurrentModuleName` / `writeJsonName`): "module:name" where the node's
+    module `md` differs from that of its parent `pm` — the root has none, so top-level names are always
+    qualified; a list entry has the module of its list -/
+def jname (rfc : Bool) (pm md : Tok) (n : Tok) : Tok := if rfc && decide (md ≠ pm) then md ++ [58] ++ n else n
 
 /-- `JSONReader.name`: what follows the first colon -/
 def stripMod (n : Tok) : Tok := if n.contains 58 then (n.dropWhile (· ≠ 58)).drop 1 else n
 
 mutual
-/-- `encodeJsonChildren` for the children `ds` of a node whose schema children are `kids` -/
-def encKids (kind : τ → VK) (rfc top : Bool) (modName : Tok) (kids : List (SN τ)) : List DN → List (Tok × J)
+/-- `encodeJsonChildren` for the children `ds` of the node at schema path `path` (module `pm`) whose schema
+    children are `kids`; `mo` gives the module of the node at a path (augmented-in nodes belong to the
+    augmenting module) -/
+def encKids (kind : τ → VK) (rfc : Bool) (mo : List Tok → Tok) (path : List Tok) (pm : Tok) (kids : List (SN τ)) :
+    List DN → List (Tok × J)
   | [] => []
   | d :: r =>
     (match lookup d.name (dataKids kids), d with
-     | some (.container _ _ ck), .mk n dk _ => [(jname rfc top modName n, J.obj (encKids kind rfc false modName ck dk))]
-     | some (.list _ _ _ _ _ ck), .mk n es _ => [(jname rfc top modName n, J.arr (encEntries kind rfc modName ck es))]
+     | some (.container _ _ ck), .mk n dk _ =>
+       [(jname rfc pm (mo (path ++ [n])) n, J.obj (encKids kind rfc mo (path ++ [n]) (mo (path ++ [n])) ck dk))]
+     | some (.list _ _ _ _ _ ck), .mk n es _ =>
+       [(jname rfc pm (mo (path ++ [n])) n, J.arr (encEntries kind rfc mo (path ++ [n]) (mo (path ++ [n])) ck es))]
      | some (.leaf _ ty _ _), .mk n _ vals =>
-       [(jname rfc top modName n, match vals with
+       [(jname rfc pm (mo (path ++ [n])) n, match vals with
           | [] => (if rfc && kind ty = .empty then J.arr [.null] else J.null)
           | v :: _ => writeValue rfc (kind ty) v)]
      | some (.leafList _ ty _ _), .mk n _ vals =>
-       [(jname rfc top modName n, J.arr (vals.map (writeValue rfc (kind ty))))]
-     | _, _ => []) ++ encKids kind rfc top modName kids r
-def encEntries (kind : τ → VK) (rfc : Bool) (modName : Tok) (kids : List (SN τ)) : List DN → List J
+       [(jname rfc pm (mo (path ++ [n])) n, J.arr (vals.map (writeValue rfc (kind ty))))]
+     | _, _ => []) ++ encKids kind rfc mo path pm kids r
+def encEntries (kind : τ → VK) (rfc : Bool) (mo : List Tok → Tok) (path : List Tok) (pm : Tok) (kids : List (SN τ)) :
+    List DN → List J
   | [] => []
-  | .mk _ ek _ :: r => J.obj (encKids kind rfc false modName kids ek) :: encEntries kind rfc modName kids r
+  | .mk _ ek _ :: r => J.obj (encKids kind rfc mo path pm kids ek) :: encEntries kind rfc mo path pm kids r
 end
 
 /-- `ToJSON` / `ToRFC7951` -/
-def toJ (kind : τ → VK) (rfc : Bool) (modName : Tok) (top : List (SN τ)) (root : DN) : J :=
-  .obj (encKids kind rfc true modName top root.kids)
+def toJ (kind : τ → VK) (rfc : Bool) (mo : List Tok → Tok) (top : List (SN τ)) (root : DN) : J :=
+  .obj (encKids kind rfc mo [] [] top root.kids)
 
 mutual
 /-- `convertToDataNode` over the members of an object (the children of a container / list entry / root) -/
